@@ -87,6 +87,8 @@ def gen_network(rng, sw):
     obj = {"BIO": 1}
     if rng.random() < 0.15:
         obj = {rng.choice([r["id"] for r in rxns]): 1}
+    if rng.random() < sw.get("p_empty_objective", 0.0):
+        obj = {}
     direction = "max" if rng.random() < 0.85 else "min"
     return {"id": "net", "name": None, "comps": {"c": "cytosol", "e": "extracellular"}, "mets": mets, "rxns": rxns,
             "objective": obj, "direction": direction, "groups": [], "solver": sw.get("solver", "glpk")}
@@ -146,11 +148,16 @@ def exact_fva(ref, rids, fraction, pfba_factor=None):
     """{rid: (min, max)} as floats / 'unbounded'; None if the oracle cannot answer."""
     lp, col = split_lp(ref)
     oe = obj_expr(ref, col)
-    res = reflp.solve(lp, oe, ref.direction)
-    if not res.certified or res.status != "optimal":
-        return None
-    bound = res.value * reflp.Fraction(fraction).limit_denominator(10 ** 6)
-    lp = lp.with_row(oe, bound, None) if ref.direction == "max" else lp.with_row(oe, None, bound)
+    if fraction is None:  # no objective constraint at all (blocked reactions do not depend on the objective)
+        res = reflp.solve(lp, {}, "max")
+        if not res.certified or res.status != "optimal":
+            return None
+    else:
+        res = reflp.solve(lp, oe, ref.direction)
+        if not res.certified or res.status != "optimal":
+            return None
+        bound = res.value * reflp.Fraction(fraction).limit_denominator(10 ** 6)
+        lp = lp.with_row(oe, bound, None) if ref.direction == "max" else lp.with_row(oe, None, bound)
     if pfba_factor is not None:
         tot = {j: 1 for j in range(lp.ncols)}
         lp0 = lp.with_row(oe, 0, None) if ref.direction == "max" else lp.with_row(oe, None, 0)
@@ -168,6 +175,42 @@ def exact_fva(ref, rids, fraction, pfba_factor=None):
         out[r] = ("unbounded" if lo.status == "unbounded" else float(lo.value),
                   "unbounded" if hi.status == "unbounded" else float(hi.value))
     return out
+
+
+def exact_moma_range(ref, knocked, ref_fluxes):
+    """Linear MOMA: d* = exact minimal L1 distance to the reference fluxes on the knocked-out model; returns the exact range
+    (lo, hi) of the original objective over {distance <= d*}, or "infeasible", or None if the oracle cannot answer."""
+    lp, col = split_lp(ref, knocked)
+    rids = sorted(ref.rxns)
+    n0 = lp.ncols
+    big = reflp.LP(n0 + 2 * len(rids))
+    for j in range(n0):
+        big.set_col(j, lp.lo[j], lp.hi[j])
+    for i, row in enumerate(lp.rows):
+        big.add_row(dict(row), lp.row_lo[i], lp.row_hi[i])
+    dist = {}
+    for k, r in enumerate(rids):
+        dp, dn = n0 + 2 * k, n0 + 2 * k + 1
+        big.set_col(dp, 0, None)
+        big.set_col(dn, 0, None)
+        e = dict(net(col, r))
+        e[dp] = -1
+        e[dn] = 1
+        f = reflp.Fraction(float(ref_fluxes.get(r, 0.0)))
+        big.add_row(e, f, f)  # v - (dp - dn) = reference flux
+        dist[dp] = 1
+        dist[dn] = 1
+    m = reflp.solve(big, dist, "min")
+    if not m.certified:
+        return None
+    if m.status != "optimal":
+        return "infeasible"
+    slack = abs(m.value) * reflp.Fraction(1, 10 ** 7) + reflp.Fraction(1, 10 ** 7)
+    capped = big.with_row(dist, None, m.value + slack)
+    lo, hi = reflp.minmax(capped, obj_expr(ref, col))
+    if not (lo.certified and hi.certified) or lo.status != "optimal" or hi.status != "optimal":
+        return None
+    return float(lo.value), float(hi.value)
 
 
 def knocked_by_genes(ref, gids):
@@ -243,6 +286,14 @@ def _deletion(fn_name, entity):
         fn = getattr(fa, fn_name)
         lst = model.genes if entity == "gene" else model.reactions
         kw = {"method": a.get("method", "fba"), "processes": p}
+        ref_fluxes = None
+        if a.get("method") == "linear moma":
+            # the reference solution is given explicitly so that the oracle judges against the same reference
+            from cobra.flux_analysis import pfba
+
+            sol = pfba(model)
+            kw["solution"] = sol
+            ref_fluxes = {k: float(v) for k, v in sol.fluxes.items()}
         l1 = _items(model, lst, a.get("l1"), a.get("as_obj"))
         if "double" in fn_name:
             df = fn(model, l1, _items(model, lst, a.get("l2"), a.get("as_obj")), **kw)
@@ -251,7 +302,7 @@ def _deletion(fn_name, entity):
         res = _frame_del(df)
         if a.get("method", "fba") == "fba":
             return {"unique": res}
-        return {"unique": {k: v[1] for k, v in res.items()}, "other": res}
+        return {"unique": {k: v[1] for k, v in res.items()}, "other": res, "ref_fluxes": ref_fluxes}
 
     return run
 
@@ -435,12 +486,25 @@ class World:
             return
         if kind == "age":
             rid = op.get("r")
-            if rid and self.model.reactions.has_id(rid):
+            if op.get("plain"):
+                self.model.slim_optimize()
+            elif rid and self.model.reactions.has_id(rid):
                 with self.model:
                     self.model.objective = rid
                     self.model.objective_direction = op.get("dir", "max")
                     self.model.slim_optimize()
                 self.stats["probe:aged_parent"] += 1
+            return
+        if kind == "edit":
+            rid = op.get("r")
+            if rid and self.model.reactions.has_id(rid):
+                self.model.reactions.get_by_id(rid).bounds = (op["lb"], op["ub"])
+                self.ref.rxns[rid]["lb"], self.ref.rxns[rid]["ub"] = op["lb"], op["ub"]
+                self.exact_cache.clear()
+                self.refs.clear()
+                if self.user_ctx_snap is not None:
+                    self.user_ctx_snap = S.snap(self.model)
+                self.stats["probe:model_edited_between_calls"] += 1
             return
         if kind == "set_config_processes":
             from cobra.core.configuration import Configuration
@@ -515,6 +579,10 @@ class World:
         elif result is not None and kind.endswith("_deletion") and "deletion_exact" in self.oracles and args.get("method", "fba") == "fba":
             # narrow relaxation under faults: a row that claims `optimal` must still carry the right growth
             self._exact_deletion(op, result, only_optimal=True)
+        elif result is not None and kind == "fva" and "fva_exact" in self.oracles and not args.get("loopless"):
+            # fault containment: one failed solve may spoil the one item it served, never the items solved after it
+            self._exact_fva(op, result, None, allow_bad=1)
+            self.stats["probe:fault_containment_checked"] += 1
         # ---- C13 repeatable / C14 schedule independence --------------------------------------
         if not faulted and ("repeatable" in self.oracles or "schedule_independent" in self.oracles):
             sig = ("raised", type(raised).__name__) if raised is not None else ("ok", uniq)
@@ -562,12 +630,14 @@ class World:
             self._exact_fva(op, result, raised)
         elif kind.endswith("_deletion") and "deletion_exact" in self.oracles and a.get("method", "fba") == "fba" and result is not None:
             self._exact_deletion(op, result)
+        elif kind.endswith("_deletion") and "deletion_exact" in self.oracles and a.get("method") == "linear moma" and result is not None:
+            self._exact_moma(op, result)
         elif kind in ("essential_genes", "essential_reactions") and "deletion_exact" in self.oracles and result is not None:
             self._exact_essential(op, result)
         elif kind == "blocked" and "fva_exact" in self.oracles and result is not None:
             self._exact_blocked(op, result)
 
-    def _exact_fva(self, op, result, raised):
+    def _exact_fva(self, op, result, raised, allow_bad=0):
         a = op.get("args", {})
         rids = a.get("rxns") or [r.id for r in self.model.reactions]
         ck = ("fva", a.get("fraction", 1.0), a.get("pfba_factor"))
@@ -578,6 +648,8 @@ class World:
             self.stats["oracle_skip:fva"] += 1
             return
         if raised is not None:
+            if any(r not in self.ref.rxns for r in rids):
+                return  # a request for an id the model does not have raises legitimately
             if all(v[0] != "unbounded" and v[1] != "unbounded" for r, v in ex.items() if r in rids):
                 raise Violation("fva_exact", {"what": "FVA raised although the model has an optimum and all requested ranges are finite",
                                               "exception": repr(raised)[:200]}, culprit=_pub(op))
@@ -587,9 +659,11 @@ class World:
                                           "want": list(rids)}, culprit=_pub(op))
         res = result["unique"] if not a.get("loopless") else result["other"]
         bad = []
+        bad_rxns = set()
         for r in rids:
             lo, hi = res[r]
             elo, ehi = ex[r]
+            n_before = len(bad)
             if a.get("loopless"):
                 # inclusion invariants only (true loopless extremes need sign-pattern enumeration)
                 if not isinstance(lo, str) and not isinstance(hi, str):
@@ -606,9 +680,14 @@ class World:
                         bad.append(f"{r}: {nm} {got} reported for an unbounded range")
                 elif isinstance(got, str) or not _same_num(got, want):
                     bad.append(f"{r}: {nm} {got} != exact {want}")
-        if bad:
-            raise Violation("fva_exact", {"what": "FVA ranges differ from the exact ranges", "problems": bad[:6],
-                                          "processes": op.get("processes")}, culprit=_pub(op))
+            if len(bad) > n_before:
+                bad_rxns.add(r)
+        if len(bad_rxns) > allow_bad:
+            what = "FVA ranges differ from the exact ranges" if not allow_bad else \
+                "one injected solver verdict spoiled the ranges of more than one reaction"
+            raise Violation("fva_exact" if not allow_bad else "fault_containment",
+                            {"what": what, "problems": bad[:6], "processes": op.get("processes"), "fault": op.get("fault")},
+                            culprit=_pub(op))
         self.stats["probe:fva_exact_checked"] += 1
 
     def _combos(self, op):
@@ -662,6 +741,40 @@ class World:
                                                "problems": bad[:6], "processes": op.get("processes")}, culprit=_pub(op))
         self.stats["probe:deletion_exact_checked"] += 1
 
+    def _exact_moma(self, op, result):
+        entity, combos = self._combos(op)
+        res = result["other"]
+        want_keys = {"|".join(sorted(c)) for c in combos}
+        if set(res) != want_keys:
+            raise Violation("deletion_exact", {"what": "rows of the frame != requested unordered combinations (each exactly once)",
+                                               "missing": sorted(want_keys - set(res))[:5], "extra": sorted(set(res) - want_keys)[:5]},
+                            culprit=_pub(op))
+        rf = result.get("ref_fluxes")
+        if not rf or self.ref.obj is None:
+            return
+        bad = []
+        for key, (growth, status) in list(res.items())[:6]:
+            ids = key.split("|") if key else []
+            knocked = knocked_by_genes(self.ref, ids) if entity == "gene" else set(ids)
+            rng_ = exact_moma_range(self.ref, knocked, rf)
+            if rng_ is None:
+                self.stats["oracle_skip:moma"] += 1
+                continue
+            if rng_ == "infeasible":
+                if status == "optimal":
+                    bad.append(f"{key}: status optimal although the knocked-out model is infeasible")
+                continue
+            lo, hi = rng_
+            if status == "optimal":
+                if isinstance(growth, str) or growth < lo - 1e-5 * max(1, abs(lo)) or growth > hi + 1e-5 * max(1, abs(hi)):
+                    bad.append(f"{key}: growth {growth} is not the original objective at a minimal-adjustment solution (exact range [{lo}, {hi}])")
+            else:
+                bad.append(f"{key}: status {status} although a minimal-adjustment solution exists")
+        if bad:
+            raise Violation("deletion_exact", {"what": "linear MOMA deletion results", "problems": bad[:6], "processes": op.get("processes")},
+                            culprit=_pub(op))
+        self.stats["probe:moma_attainability_checked"] += 1
+
     def _exact_essential(self, op, result):
         a = op.get("args", {})
         entity = "gene" if "genes" in op["op"] else "reaction"
@@ -693,9 +806,9 @@ class World:
         a = op.get("args", {})
         if a.get("open_exchanges"):
             return
-        ck = ("fva", 0.0, None)
+        ck = ("fva", None, None)
         if ck not in self.exact_cache:
-            self.exact_cache[ck] = exact_fva(self.ref, sorted(self.ref.rxns), 0.0, None)
+            self.exact_cache[ck] = exact_fva(self.ref, sorted(self.ref.rxns), None, None)
         ex = self.exact_cache[ck]
         if ex is None:
             return
@@ -759,7 +872,7 @@ def _compare_sig(a, b):
 ORACLES = {
     "C13": {"unchanged", "repeatable"},
     "C14": {"schedule_independent", "fva_exact", "deletion_exact"},
-    "C05": {"fva_exact"},
+    "C05": {"fva_exact"},  # incl. fault containment under one injected non-raising verdict
     "C06": {"deletion_exact"},
 }
 
@@ -771,7 +884,7 @@ def make_swarm(rng, prop, run_cfg):
     return {"max_mets": rng.randint(2, 5), "max_rxns": rng.randint(1, 5), "n_genes": rng.randint(2, 5),
             "p_rule": rng.choice([0.4, 0.7, 0.95]) if prop in ("C06", "C14", "C13") else 0.3,
             "p_infinite": rng.choice([0.0, 0.1, 0.3]), "solver": rng.choice(["glpk", "glpk", "glpk", "glpk_exact"]),
-            "user_ctx": rng.random() < 0.4, "aged": rng.random() < 0.5,
+            "user_ctx": rng.random() < 0.4, "aged": rng.random() < 0.5, "p_empty_objective": 0.12 if prop == "C13" else 0.04,
             "platform": rng.choice(["Linux", "Linux", "Windows"]), "n_variants": rng.randint(2, 5)}
 
 
@@ -829,6 +942,8 @@ def _gen_call(rng, W, prop):
         a["as_obj"] = rng.random() < 0.5
         if prop == "C13" and rng.random() < 0.4:
             a["method"] = rng.choice(["linear moma", "linear room"])
+        elif prop in ("C06", "C14") and rng.random() < 0.25:
+            a["method"] = "linear moma"
     elif kind == "optimize":
         if rng.random() < 0.5:
             a["sense"] = rng.choice(["maximize", "minimize"])
@@ -880,7 +995,16 @@ def gen_ops(rng, W, prop, sw, run_cfg):
     if sw["user_ctx"] and prop in ("C13",):
         yield {"op": "user_enter", "r": rng.choice(sorted(W.ref.rxns)), "ub": rng.choice([500, 5, 50])}
     n_calls = rng.randint(1, 3)
-    for _ in range(n_calls):
+    for ci in range(n_calls):
+        if rng.random() < 0.35:
+            # leave the solver with an optimal solution of the current model, then tighten the model
+            r = rng.choice(sorted(W.ref.rxns))
+            x = W.ref.rxns[r]
+            lb, ub = rng.choice([(0, 0), (max(x["lb"], -1), min(x["ub"], 1)), (0, x["ub"]) if x["ub"] >= 0 else (x["lb"], x["ub"]),
+                                 (x["lb"], 0) if x["lb"] <= 0 else (x["lb"], x["ub"])])
+            if lb <= ub:
+                yield {"op": "age", "r": rng.choice(sorted(W.ref.rxns)), "dir": rng.choice(["max", "min"]), "plain": True}
+                yield {"op": "edit", "r": r, "lb": lb, "ub": ub}
         kind, a = _gen_call(rng, W, prop)
         par = kind in PARALLEL
         ref_op = {"op": kind, "args": a, "processes": 1, "role": "ref"}
@@ -917,6 +1041,15 @@ def gen_ops(rng, W, prop, sw, run_cfg):
                         b[k] = [rng.choice(src)]
                     if ok:
                         yield {"op": kind, "args": b, "processes": rng.choice([1, 2]), "role": "single", "parent_key": key}
+        if prop in ("C05", "C14") and kind == "fva" and not a.get("loopless"):
+            K = ref_op.get("_K", 0)
+            for _ in range(2):
+                if K >= 2:
+                    p = rng.choice([1, 1, rng.randint(2, 6)])
+                    f = {"k": rng.randint(2, K), "verdict": rng.choice(["time_limit", "feasible", "infeasible"])}
+                    if rng.random() < 0.4:
+                        f["null_value"] = True
+                    yield {"op": kind, "args": _permute(rng, a, kind), "processes": p, "role": "fault", "fault": f}
         if prop == "C13":
             # fault enumeration: every solver call index x every verdict, serial and (for parallel analyses) simulated-parallel
             for mode in (["serial", "pool"] if par and rng.random() < 0.7 else ["serial"]):
